@@ -120,9 +120,18 @@ impl GenerateConfig {
 
     /// Load configuration from a file
     pub fn from_file<P: AsRef<Path>>(path: P) -> Result<Self, ConfigError> {
+        let config = Self::from_file_unvalidated(path)?;
+        config.validate()?;
+        Ok(config)
+    }
+
+    /// Load configuration from a file without validating it.
+    ///
+    /// For callers that still apply overrides (command-line flags) on top of the
+    /// file's settings and validate the effective configuration afterwards.
+    pub fn from_file_unvalidated<P: AsRef<Path>>(path: P) -> Result<Self, ConfigError> {
         let content = fs::read_to_string(path)?;
         let config: Self = serde_json::from_str(&content)?;
-        config.validate()?;
         Ok(config)
     }
 
